@@ -647,3 +647,67 @@ Lemma numeral_sb_spec : forall s a b sig, b <> 0 ->
 Proof.
   intros s a b sig Hb. split; [now apply numeral_sb_sound|]. intros ->. now apply numeral_sb_complete.
 Qed.
+
+(** * Character content of numerals (glue for C05: finite values never print
+    "NaN" or "inf") *)
+
+Definition contains (pat s : str) : Prop := exists pre post, s = pre ++ pat ++ post.
+Definition starts_with (pat s : str) : Prop := exists post, s = pat ++ post.
+Definition nan_str : str := [78; 97; 78].       (* "NaN" *)
+Definition inf_str : str := [105; 110; 102].    (* "inf" *)
+
+(** Only digits and at most one '.'. *)
+Definition numeral_chars (s : str) : Prop :=
+  Forall (fun x => digit x \/ x = ch_dot) s /\ (count_occ N.eq_dec s ch_dot <= 1)%nat.
+
+Lemma not_contains_byte : forall c pat s, In c pat -> ~ In c s -> ~ contains pat s.
+Proof.
+  intros c pat s Hc Hn [pre [post ->]]. apply Hn. apply in_or_app. right. apply in_or_app. now left.
+Qed.
+
+Lemma digits_no_dot_count : forall l, Forall digit l -> count_occ N.eq_dec l ch_dot = O.
+Proof.
+  intros l H. apply count_occ_not_In. intros Hin. rewrite Forall_forall in H.
+  specialize (H _ Hin). unfold digit, ch_dot in H. lia.
+Qed.
+
+Lemma render_fix_numeral_chars : forall t k, numeral_chars (render_fix t k).
+Proof.
+  intros t k. split; [apply render_fix_bytes|]. unfold render_fix.
+  rewrite count_occ_app, digits_no_dot_count by apply digits_of_digit.
+  rewrite frac_part_eq. unfold dotfrac.
+  destruct (strip0 (pad_digits (N.to_nat k) (t mod 10 ^ k))) as [|z0 zr] eqn:E; [cbn; lia|].
+  rewrite <- E. rewrite count_occ_cons_eq by reflexivity.
+  rewrite digits_no_dot_count by (apply strip0_incl, pad_digit). lia.
+Qed.
+
+Lemma trunc_numeral_chars : forall a b sig, numeral_chars (trunc_numeral a b sig).
+Proof. intros. unfold trunc_numeral. apply render_fix_numeral_chars. Qed.
+
+Lemma numeral_chars_notin : forall c s, numeral_chars s -> ~ digit c -> c <> ch_dot -> ~ In c s.
+Proof.
+  intros c s [H _] Hd Hc Hin. rewrite Forall_forall in H. destruct (H _ Hin) as [Hx| ->]; auto.
+Qed.
+
+Lemma render_fix_head_digit : forall t k, exists b r, render_fix t k = b :: r /\ digit b.
+Proof.
+  intros t k. unfold render_fix. pose proof (digits_of_canon (t / 10 ^ k)) as [Hd [Hne _]].
+  destruct (digits_of (t / 10 ^ k)) as [|b r]; [now elim Hne|]. inversion Hd; subst.
+  exists b. eexists. split; [reflexivity|assumption].
+Qed.
+
+(** A string [num ++ " " ++ suffix] whose numeral has only digits / '.' and
+    whose suffix has neither 'N' nor 'f' contains neither "NaN" nor "inf". *)
+Lemma no_nan_inf : forall num suffix, numeral_chars num -> ~ In 78 suffix -> ~ In 102 suffix ->
+  ~ contains nan_str (num ++ [ch_space] ++ suffix) /\ ~ contains inf_str (num ++ [ch_space] ++ suffix).
+Proof.
+  intros num suffix Hn H78 H102. split.
+  - apply (not_contains_byte 78); [cbn; auto|]. intros Hin.
+    apply in_app_or in Hin. destruct Hin as [Hin|Hin].
+    + revert Hin. apply numeral_chars_notin; [exact Hn|unfold digit; lia|unfold ch_dot; lia].
+    + cbn [app In] in Hin. destruct Hin as [Hin|Hin]; [unfold ch_space in Hin; lia|auto].
+  - apply (not_contains_byte 102); [cbn; auto|]. intros Hin.
+    apply in_app_or in Hin. destruct Hin as [Hin|Hin].
+    + revert Hin. apply numeral_chars_notin; [exact Hn|unfold digit; lia|unfold ch_dot; lia].
+    + cbn [app In] in Hin. destruct Hin as [Hin|Hin]; [unfold ch_space in Hin; lia|auto].
+Qed.
